@@ -245,6 +245,19 @@ def build_qop(s, csys_of):
     raise ValueError(k)
 
 
+def build_basis(spec, live=None):
+    """a slightly tilted / rescaled Pauli basis (dense MatrixBasis or SparseMatrixBasis); `live`: rebuild an equal-valued
+    one from the arrays of that object"""
+    if live is not None:
+        mats = [np.array(b.toarray() if sparse.issparse(b) else b, dtype=np.complex128) for b in live.basis]
+    else:
+        mats = [np.array(b, dtype=np.complex128) for b in mb.get_normalized_pauli_basis().basis]
+        k = spec["which"]
+        mats[k] = mats[k] + spec["tilt"] * mats[1 + k % 3]
+        mats[1 + (k + 1) % 3] = mats[1 + (k + 1) % 3] * (1 + spec["scale"])
+    return mb.SparseMatrixBasis(mats) if spec["sparse"] else mb.MatrixBasis(mats)
+
+
 def basis_for(dim):
     return mb.get_normalized_pauli_basis() if dim == 2 else mb.get_normalized_gell_mann_basis()
 
@@ -320,6 +333,8 @@ class Fresh:
             o = build_qop(spec_of(en.obj, self.W), self.csys)
         elif k == "array":
             o = np.array(en.obj, copy=True)
+        elif k == "basis":
+            o = build_basis(en.meta["spec"], live=en.obj)
         elif k == "data":
             o = [(int(n), np.array(p, copy=True)) for n, p in en.obj]
         elif k == "qt":
@@ -452,6 +467,8 @@ def snap_entry(en, W):
         return fast_digest(o)
     if k == "data":
         return fast_digest([(n, p) for n, p in o])
+    if k == "basis":
+        return fast_digest(list(o.basis))
     if k == "qt":
         ex = o.experiment
         return fast_digest([list(o.testers), o.calc_matA(), o.calc_vecB(), o.num_variables, o.num_schedules,
@@ -644,6 +661,23 @@ def run_op(op, get, W, atol_state):
         c = get(a[0])
         return [c.dim, c.num_e_sys, c.basis(), c.comp_basis(), c.get_basis(pick(p["i"], len(c.basis()))),
                 c.basis_basisconjugate(pick(p["i"], len(c.basis()) ** 2)), c.is_orthonormal_hermitian_0thprop_identity]
+    if k == "basis_query":
+        b = get(a[0])
+        return [b.is_normal(), b.is_orthogonal(), b.is_hermitian(), b.is_0thpropI(), b.is_trace_less(), b.dim, len(b)]
+    if k == "basis_esys":
+        es = ElementalSystem(7, get(a[0]))
+        c = CompositeSystem([es])
+        return [es.is_orthonormal_hermitian_0thprop_identity, es.is_hermitian, c.is_orthonormal_hermitian_0thprop_identity,
+                c.is_basis_hermitian]
+    if k == "prob_helper":
+        from quara.utils import matrix_util
+        v = get(a[0])
+        which = p["i"] % 3
+        if which == 0:
+            return matrix_util.replace_prob_dist(v)
+        if which == 1:
+            return matrix_util.calc_covariance_mat(matrix_util.replace_prob_dist(v), 10 + p["i"] % 90)
+        return matrix_util.calc_covariance_mat(v, 10 + p["i"] % 90)
     if k == "atol_set":
         Settings.set_atol(p["atol"])
         return None
@@ -768,8 +802,22 @@ def init_specs(g, tier_quick):
                           "on_para_eq": True})
     qts = [e for e, k, _ in S if k == "qt"]
     for qt in qts:
-        for j in range(2):
-            add(f"d_{qt}_{j}", "data", {"qt": qt, "n": int(g.choice([10, 50, 200])), "u": g.random(64)})
+        for j in range(3):
+            add(f"d_{qt}_{j}", "data", {"qt": qt, "n": int(g.choice([10, 50, 200])), "u": g.random(64), "zeros": j == 2})
+    # probability vectors for the helper routines the weighting modes call (exact zeros and sub-threshold entries included)
+    for j in range(3):
+        m = int(g.integers(2, 5))
+        w = g.integers(0 if j else 1, 20, size=m).astype(np.float64)
+        if w.sum() == 0:
+            w[0] = 1.0
+        pv = w / w.sum()
+        if j == 2:
+            pv = pv * (1 - 1e-10); pv[int(g.integers(0, m))] += 1e-10
+        add(f"prob{j}", "array", {"value": pv, "role": "prob"})
+    # matrix bases that are orthonormal only approximately: the verdicts depend on the global tolerance
+    for j, sparse_ in enumerate([False, True]):
+        add(f"basis{j}", "basis", {"dim": 2, "sparse": sparse_, "tilt": float(g.choice([3e-5, 3e-8, 3e-10])),
+                                   "scale": float(g.choice([3e-5, 3e-8, 3e-10])), "which": int(g.integers(1, 4))})
     # loss options: one per (class, mode); custom weights (random symmetric positive 2x2 matrices, one per schedule)
     # are per tomography object
     nsched = {"qst1": 4, "qst0": 3, "povmt": 5, "qpt": 12}
@@ -804,6 +852,10 @@ def build_world(S):
             W.add(eid, "csys", c, {"spec": spec})
         elif kind in ("state", "povm", "gate", "mprocess", "dist", "ensemble"):
             W.add(eid, kind, build_qop(spec, lambda cid: W.e[cid].obj))
+        elif kind == "array" and "value" in spec:
+            W.add(eid, "array", np.array(spec["value"], dtype=np.float64), {"role": spec["role"]})
+        elif kind == "basis":
+            W.add(eid, "basis", build_basis(spec), {"spec": spec})
         elif kind == "array":
             base = W.e[spec["from"]].obj
             v = np.array(base.to_var(), dtype=np.float64, copy=True)
@@ -828,7 +880,8 @@ def build_world(S):
 
 
 def make_data(qt, spec):
-    """empirical distributions with strictly positive entries (away from every clipping threshold)"""
+    """empirical distributions (float64 arrays): strictly positive entries, or — with spec['zeros'] — some schedules in
+    which an outcome was never observed (exact zero frequency: the data-dependent weighting modes replace it internally)"""
     out = []
     u = spec["u"]
     k = 0
@@ -837,7 +890,10 @@ def make_data(qt, spec):
         w = 0.15 + u[k:k + m]
         k += m
         cnt = np.maximum(1, np.round(w / w.sum() * spec["n"]))
-        out.append((int(cnt.sum()), cnt / cnt.sum()))
+        if spec.get("zeros") and u[40 + s] < 0.6:
+            j = int(u[50 + s] * m) % m
+            cnt[j] = 0
+        out.append((int(cnt.sum()), np.array(cnt / cnt.sum(), dtype=np.float64)))
     return out
 
 
@@ -919,6 +975,14 @@ def gen_op(rng, W, step, atol_changed):
         i = rng.choice(qops)
         js = [j for j in by.get(e[i].kind, [])]
         return {"op": rng.choice(ARITH), "args": [i, rng.choice(js)], "p": p}
+    if r < 0.67 + 0.025:
+        bs = by.get("basis", [])
+        if bs:
+            return {"op": rng.choice(["basis_query", "basis_query", "basis_esys"]), "args": [rng.choice(bs)], "p": p}
+    if r < 0.67 + 0.035:
+        pr = [i for i in by.get("array", []) if e[i].meta.get("role") == "prob"]
+        if pr:
+            return {"op": "prob_helper", "args": [rng.choice(pr)], "p": p}
     if r < 0.72:
         cs = by.get("csys", [])
         c = rng.choice(cs)
@@ -1030,7 +1094,7 @@ def _exec_history(S, ops, gen, nops, stop_on_first, subst, on_case):
             if op["op"] == "atol_restore":
                 atol_changed = False
                 W.recent_atol = 2
-            if op["op"] in VERDICTS and (op["op"], args[0]) not in W.verdicts:
+            if (op["op"] in VERDICTS or op["op"] in ("basis_query", "basis_esys")) and (op["op"], args[0]) not in W.verdicts:
                 W.verdicts.append((op["op"], args[0]))
             if on_case:
                 on_case(op, ns)
